@@ -11,9 +11,9 @@ sys.path.insert(0, os.path.dirname(os.path.abspath(__file__)))
 import pgen  # noqa: E402  (worker `parser` owns pgen.py; read-only use)
 
 ID = 'C10'
-GEN_FILES = ['T_fmtspaces']
+GEN_FILES = ['T_fmtspaces', 'T_pins_parser', 'T_pins_luawriter']
 COQ_PROPERTY = 'theories/Properties/C10.vo'
-COQ_EXTRA = []
+COQ_EXTRA = ['theories/Proofs/ParserPins.vo', 'theories/Proofs/AstWriterPins.vo']
 MODEL = ('ExC10', 'c10_main.ml')
 MONITOR = ('MonC10', 'c10_mon_main.ml')
 ALPHABET = b' \t\n\r-/a'
